@@ -57,7 +57,7 @@ def run(ctx) -> None:
            'one write-back', 2)
   ctx.rule('R3', 'a metadata update naming a missing trial changes nothing and is reported', 3)
   ctx.rule('R4', 'designer policies write their state only under their reserved namespace root', 1)
-  ctx.rule('R5', 'KeyValue.ns is written from Namespace.encode() and read through Namespace.decode()', 4)
+  ctx.rule('R5', 'KeyValue.ns is written from Namespace.encode() and read through Namespace.decode()', 2)
   ctx.import_rules('C04', {'R1', 'R4'}, 'R7', 'no lost metadata updates: whole-row read-modify-writes and metadata merges share a lock region')
   ctx.rule('R6', 'algorithm-issued metadata deltas are always forwarded to the datastore; '
            '_assign_value tests str, then Any, then packs other messages', 3)
@@ -138,23 +138,29 @@ def r2_upsert(ctx) -> None:
       raise AnalysisError(f'{fname} not found')
     container = fi.params[0]
     newp = fi.params[1]
-    loops = [n for n in fi.node.body if isinstance(n, ast.For)]
-    stores = []  # (loop index, iter expr, key tuple exprs, value expr)
-    for li, lp in enumerate(loops):
-      for st in ast.walk(lp):
-        if isinstance(st, ast.Assign) and len(st.targets) == 1 and isinstance(st.targets[0], ast.Subscript) \
-            and isinstance(st.targets[0].slice, ast.Tuple):
-          stores.append((li, lp, st.targets[0].slice.elts, st.value, st.targets[0].value))
+    # fill events of the merge dictionary, in source order: (line, iterated expr, key exprs, stored value, dict expr)
+    stores = []
+    for st in ast.walk(fi.node):
+      if isinstance(st, ast.Assign) and len(st.targets) == 1 and isinstance(st.targets[0], ast.Subscript) \
+          and isinstance(st.targets[0].slice, ast.Tuple):
+        lp = next((a_ for a_ in ancestors(st) if isinstance(a_, ast.For)), None)
+        if lp is not None:
+          stores.append((st.lineno, lp.iter, st.targets[0].slice.elts, st.value, unparse(st.targets[0].value, 0)))
+      if isinstance(st, (ast.Assign, ast.AnnAssign)) and isinstance(st.value, ast.DictComp) and isinstance(st.value.key, ast.Tuple) \
+          and len(st.value.generators) == 1 and not st.value.generators[0].ifs:
+        tgt = st.targets[0] if isinstance(st, ast.Assign) else st.target
+        stores.append((st.lineno, st.value.generators[0].iter, st.value.key.elts, st.value.value, unparse(tgt, 0)))
+    stores.sort(key=lambda x: x[0])
     problems = []
     if len(stores) < 2:
       problems.append('fewer than two keyed stores (existing entries, new entries)')
     else:
-      (l0, lp0, k0, v0, d0), (l1, lp1, k1, v1, d1) = stores[0], stores[1]
-      if unparse(d0, 0) != unparse(d1, 0):
+      (_, it0, k0, v0, d0), (_, it1, k1, v1, d1) = stores[0], stores[1]
+      if d0 != d1:
         problems.append('the two loops fill different dictionaries')
-      if not (dotted(lp0.iter) or '').startswith(container + '.'):
+      if not (dotted(it0) or '').startswith(container + '.'):
         problems.append('first loop does not iterate the existing metadata')
-      if not (isinstance(lp1.iter, ast.Name) and lp1.iter.id == newp):
+      if not (isinstance(it1, ast.Name) and it1.id == newp):
         problems.append('second loop does not iterate the new metadata (new must override old)')
       for which, (keys, val) in (('existing', (k0, v0)), ('new', (k1, v1))):
         kt = [unparse(k, 0) for k in keys]
@@ -383,21 +389,51 @@ def r6_forwarding(ctx) -> None:
   av = mod.functions.get('_assign_value')
   if av is None:
     raise AnalysisError('_assign_value not found')
-  order = []
-  node = av.node.body[-1] if av.node.body else None
-  while isinstance(node, ast.If):
-    t = node.test
-    if isinstance(t, ast.Call) and dotted(t.func) == 'isinstance' and len(t.args) == 2:
-      order.append(unparse(t.args[1], 0))
-    node = node.orelse[0] if len(node.orelse) == 1 and isinstance(node.orelse[0], ast.If) else None
-  anyi = next((i for i, o in enumerate(order) if o.endswith('Any')), None)
-  msgi = next((i for i, o in enumerate(order) if o.endswith('Message')), None)
-  ok = order[:1] == ['str'] and anyi is not None and (msgi is None or anyi < msgi)
+  # type dispatch evaluated scenario by scenario (str / Any / any other Message); Any IS a Message
+  from vzstatic import enumeval
+  vpar = av.params[1] if len(av.params) > 1 else 'value'
+  lattice = {'str': {'str'}, 'Any': {'Any', 'Message'}, 'Message': {'Message'}}
+
+  def tester(scn):
+    def ev(t):
+      if isinstance(t, ast.Call) and dotted(t.func) == 'isinstance' and len(t.args) == 2 and unparse(t.args[0], 0) == vpar:
+        cls_ = t.args[1].elts if isinstance(t.args[1], ast.Tuple) else [t.args[1]]
+        names = {(dotted(c) or '?').rsplit('.', 1)[-1] for c in cls_}
+        if not names <= {'str', 'Any', 'Message'}:
+          return None
+        return bool(names & lattice[scn])
+      if isinstance(t, ast.UnaryOp) and isinstance(t.op, ast.Not):
+        v = ev(t.operand)
+        return None if v is None else not v
+      if isinstance(t, ast.BoolOp):
+        vs = [ev(x) for x in t.values]
+        if any(v is None for v in vs):
+          return None
+        return all(vs) if isinstance(t.op, ast.And) else any(vs)
+      return None
+    return ev
+  want = {'str': 'value-assign', 'Any': 'copy', 'Message': 'pack'}
+  got = {}
+  for scn in ('str', 'Any', 'Message'):
+    tr = enumeval.trace(av.node.body, tester(scn))
+    if tr is None:
+      raise AnalysisError(f'_assign_value: dispatch not decidable for a {scn} value')
+    acts = set()
+    for st in tr:
+      for x in ast.walk(st):
+        if isinstance(x, ast.Assign) and any((dotted(t) or '').endswith('.value') for t in x.targets):
+          acts.add('value-assign')
+        if isinstance(x, ast.Call) and isinstance(x.func, ast.Attribute) and x.func.attr == 'CopyFrom':
+          acts.add('copy')
+        if isinstance(x, ast.Call) and isinstance(x.func, ast.Attribute) and x.func.attr == 'Pack':
+          acts.add('pack')
+    got[scn] = acts
+  ok = all(got[k] == {v} for k, v in want.items())
   ctx.check(ok, 'R6', '_assign_value dispatch order', av.node,
-            f'isinstance arms in order {order}: str, then Any (copied), other messages packed',
-            f'isinstance arms in order {order}: an `Any` value is a Message, so testing Message first '
-            'packs an Any inside another Any and a second conversion no longer returns the value written',
-            construct=' '.join(order), func=av.qualname)
+            'str -> value, Any -> copied as is, other messages -> packed once',
+            f'per value type the function performs {({k: sorted(v) for k, v in got.items()})}, expected {want}: an `Any` value is a '
+            'Message, so testing Message first packs an Any inside another Any and a second conversion no longer returns the '
+            'value written', construct='assign-dispatch', func=av.qualname)
 
 
 VARIANTS = [
